@@ -542,5 +542,5 @@ func TestReplay(t *testing.T) {
 		}
 		return o
 	}
-	kit.Replay[OrderCase](t, map[string]func(kit.RawCase) kit.Outcome{"order": kit.ReplaySub(execOrder), "stress": kit.ReplaySub(repS), "atom": kit.ReplaySub(rep(execAtom)), "wide": kit.ReplaySub(execWide)})
+	kit.Replay[OrderCase](t, map[string]func(kit.RawCase) kit.Outcome{"order": kit.ReplaySub(execOrder), "stress": kit.ReplaySub(repS), "atom": kit.ReplaySub(rep(execAtom)), "wide": kit.ReplaySub(execWide), "sched": kit.ReplaySub(execSched)})
 }
